@@ -4,7 +4,11 @@ confirm them (tests unchanged, demo passes without / fails with the change) and 
 usage: tools_import_seeded.py <property> <agent seeded dir> [k ...]"""
 import json, os, shutil, subprocess, sys, tempfile
 prop, src = sys.argv[1], sys.argv[2]
-ks = sys.argv[3:] or ['1', '2', '3']
+offset = 0
+rest = sys.argv[3:]
+if '--offset' in rest:            # second-round changes: ids continue after the first round's
+    i = rest.index('--offset'); offset = int(rest[i + 1]); rest = rest[:i] + rest[i + 2:]
+ks = rest or ['1', '2', '3']
 ENV = dict(os.environ, PYTHONHASHSEED='0')
 
 def sh(cmd, cwd=None, env=None, timeout=3000):
@@ -12,7 +16,7 @@ def sh(cmd, cwd=None, env=None, timeout=3000):
     return p.returncode, p.stdout
 
 for k in ks:
-    sid = '%s-%s' % (prop, k)
+    sid = '%s-%s' % (prop, int(k) + offset)
     dst = os.path.join('/verif/seeded', sid)
     os.makedirs(dst, exist_ok=True)
     shutil.copy(os.path.join(src, 'change_%s.diff' % k), os.path.join(dst, 'patch.diff'))
